@@ -31,6 +31,7 @@ type RecNet struct {
 	Sends      []Sent
 	Protects   []string
 	Unprotects []string
+	ProtLog    []string // "P:<tag>" / "U:<tag>" in call order
 	Receiver   network.Receiver
 	Connects   []peer.ID
 	// FailSend decides the answer of the n-th send (nil = ok).
@@ -45,11 +46,13 @@ func (n *RecNet) Protect(id peer.ID, tag string) {
 	n.mu.Lock()
 	defer n.mu.Unlock()
 	n.Protects = append(n.Protects, string(id)+"/"+tag)
+	n.ProtLog = append(n.ProtLog, "P:"+tag)
 }
 func (n *RecNet) Unprotect(id peer.ID, tag string) bool {
 	n.mu.Lock()
 	defer n.mu.Unlock()
 	n.Unprotects = append(n.Unprotects, string(id)+"/"+tag)
+	n.ProtLog = append(n.ProtLog, "U:"+tag)
 	return true
 }
 func (n *RecNet) SendMessage(ctx context.Context, to peer.ID, m datatransfer.Message) error {
@@ -199,4 +202,17 @@ func Recode(m datatransfer.Message) datatransfer.Message {
 		panic(err)
 	}
 	return d
+}
+
+// ProtectedAtEnd tells whether the last protection call for tag was a Protect.
+func (n *RecNet) ProtectedAtEnd(tag string) bool {
+	n.mu.Lock()
+	defer n.mu.Unlock()
+	last := ""
+	for _, e := range n.ProtLog {
+		if e[2:] == tag {
+			last = e[:1]
+		}
+	}
+	return last == "P"
 }
